@@ -26,6 +26,15 @@ def run(rep):
 
     explore.explore(rep, 'family-d1', fam, 1, bases, 'checks.oracles:oracle_c01', budget_s=600 if quick else 1500)
 
+    # lost publishes: one PUB message (a topic part or the topics/heartbeat part) towards one subscriber is lost, at every position
+    lossy = [{**s, 'faults': {'kinds': ['lose'], 'victims': ['snk'], 'budget': 1, 'when': 'any'}, 'quiet_ms': 700}
+             for s in fam if s['name'] in ('rejoin2/pass/pass/b1|b2;main>other', 'rejoin2/pass/pass/b1;main|b2;main>other', 'chain3/pass/mid',
+                                           'chain3/pass/mid;main', 'chain3/add/mid;*', 'join2var/skip1/s2;aux;main>other', 'join2/0/30/s1;main|s2;main>other;aux')]
+    explore.explore(rep, 'lossy-d0', lossy, 0, bases, 'checks.oracles:oracle_c01', budget_s=900)
+
+    if not quick:
+        explore.explore(rep, 'lossy-d1', lossy[:3], 1, ['fifo'], 'checks.oracles:oracle_c01', budget_s=1200)
+
     if not quick:
         core = [s for s in fam if s['name'].split('/')[0] in ('rejoin2', 'chain3', 'join2', 'tee') and
                 all(b in ('pass', 'skip1') for b in s['name'].split('/')[1:3] if b in topo.BEH)]
